@@ -235,8 +235,11 @@ def run(ctx):
         ctx.floor("SIBLING.unit_variant", len(uvs), 2, config)
         for g in uvs:
             ctx.saw(g)
-            adt = fx.adts.get(g.d.get("impl_adt") or "", None)
-            fields = [fld["name"] for v in (adt or {}).get("variants", []) for fld in v["fields"]]
+            from ..mir import norm
+            adt = fx.adts.get(norm(g.d.get("impl_adt") or ""), None)
+            if adt is None:
+                raise MissingAnchor("ADT of VariantAccess impl %s" % g.d.get("impl_adt"))
+            fields = [fld["name"] for v in adt.get("variants", []) for fld in v["fields"]]
             has_source = any(x in ("ev", "replay") for x in fields)
             if not has_source:
                 ctx.ok("SIBLING", "C05:SIBLING:unit_variant:%s" % g.d.get("impl_adt"), "access object carries no event source", config, ctx.where(g))
